@@ -116,6 +116,9 @@ type Prop[C any] struct {
 	Run        func(c C, r *R)
 	Crashy     bool   // write the case to a side file before running it
 	Rule       string // what is generated, what makes a case non-trivial and distinct
+	// ShrinkTime bounds rapid's shrinking of a failing case (default: rapid's 30 s); for properties
+	// whose failing evaluations are slow (real sockets, wall-clock waits).
+	ShrinkTime time.Duration
 }
 
 type propState struct {
@@ -418,6 +421,11 @@ func Register[C any](p Prop[C]) {
 			_ = flag.Set("rapid.checks", strconv.Itoa(n))
 			_ = flag.Set("rapid.seed", strconv.FormatUint(seed, 10))
 			_ = flag.Set("rapid.nofailfile", "true")
+			if p.ShrinkTime > 0 {
+				_ = flag.Set("rapid.shrinktime", p.ShrinkTime.String())
+			} else {
+				_ = flag.Set("rapid.shrinktime", "30s")
+			}
 			rapid.Check(t, func(rt *rapid.T) {
 				c := p.Gen(rt)
 				r, _ := exec(c)
